@@ -10,8 +10,9 @@ namespace Vrp.C09
 open Vrp
 
 /-- documented preconditions of the path-based heuristic: vehicle data set with `0 ≤ init ≤ cap`, depot is
-    node 0 with demand 0 and window `[≤ 0, ∞)`, every customer's demand fits the vehicle and its window does
-    not end before time 0 -/
+    node 0 with demand 0 and a window that never closes, every customer's demand fits the vehicle and its
+    window does not end before the depot opens (no reference to the origin of the time axis: the repaired
+    heuristic opens the dummy node's window when the depot opens, not at time 0) -/
 structure PathPre (g : Graph) (cap init : ℚ) : Prop where
   hcap : g.cap = some cap
   hinit : g.init = some init
@@ -19,10 +20,9 @@ structure PathPre (g : Graph) (cap init : ℚ) : Prop where
   initc : init ≤ cap
   nonempty : 1 ≤ g.nodes.length
   depotDemand : g.demand 0 = 0
-  depotLo : g.lo 0 ≤ 0
   depotHi : g.hi 0 = none
   custDemand : ∀ u, 1 ≤ u → u < g.nodes.length → -cap ≤ g.demand u ∧ g.demand u ≤ cap
-  custHi : ∀ u, 1 ≤ u → u < g.nodes.length → leE 0 (g.hi u) = true
+  custHi : ∀ u, 1 ≤ u → u < g.nodes.length → leE (g.lo 0) (g.hi u) = true
 
 /-! ## the two folds of the heuristic with named step functions (equal to the model by `rfl`) -/
 
@@ -53,7 +53,7 @@ def dummyName (g : Graph) (u : ℕ) : String :=
   freshDummy g u (g.nodes.length + 1) ("mf_Dum_" ++ toString u)
 
 def dummyNode (cap init : ℚ) (g : Graph) (u : ℕ) : Node :=
-  ⟨dummyName g u, -dummyLoad cap init (g.demand u), 0, none⟩
+  ⟨dummyName g u, -dummyLoad cap init (g.demand u), g.lo 0, none⟩
 
 /-- the graph after the dummy node was appended -/
 def dummyG1 (cap init : ℚ) (g : Graph) (u : ℕ) : Graph :=
@@ -72,7 +72,7 @@ def dummyBody (cap init high : ℚ) (Q : PathInst) (routes : List (List ℕ)) (u
     Except Err (PathInst × List (List ℕ)) :=
   let newLoad : ℚ := dummyLoad cap init (Q.g.demand u)
   let nm := dummyName Q.g u
-  match addNodeStep Q.g nm (-newLoad) 0 none with
+  match addNodeStep Q.g nm (-newLoad) (Q.g.lo 0) none with
   | (_, .error e) => .error e
   | (g1, .ok _) =>
   let k := g1.nodes.length - 1
@@ -196,11 +196,11 @@ theorem dummyName_fresh (g : Graph) (u : ℕ) : dummyName g u ∉ g.names :=
   freshDummy_fresh g u _ _ (by rw [g.names_length]; omega)
 
 theorem addNodeStep_dummy (cap init : ℚ) (g : Graph) (u : ℕ) :
-    addNodeStep g (dummyName g u) (-dummyLoad cap init (g.demand u)) 0 none =
+    addNodeStep g (dummyName g u) (-dummyLoad cap init (g.demand u)) (g.lo 0) none =
       (dummyG1 cap init g u, .ok none) := by
   unfold addNodeStep
   rw [if_neg (dummyName_fresh g u)]
-  have : ltE none 0 = false := rfl
+  have : ltE none (g.lo 0) = false := rfl
   simp only [this]
   rfl
 
@@ -208,7 +208,7 @@ theorem dummyG1_nodes (cap init : ℚ) (g : Graph) (u : ℕ) :
     (dummyG1 cap init g u).nodes = g.nodes ++ [dummyNode cap init g u] := rfl
 
 theorem dummyG1_inv (cap init : ℚ) (g : Graph) (u : ℕ) (hg : C15.Inv g) : C15.Inv (dummyG1 cap init g u) := by
-  have := C15.addNodeStep_inv g (dummyName g u) (-dummyLoad cap init (g.demand u)) 0 none hg
+  have := C15.addNodeStep_inv g (dummyName g u) (-dummyLoad cap init (g.demand u)) (g.lo 0) none hg
   rw [addNodeStep_dummy] at this
   exact this
 
@@ -375,7 +375,8 @@ theorem inv_window (g : Graph) (hg : C15.Inv g) (u : ℕ) (hu : u < g.nodes.leng
 /-- the three arcs of the dummy route are stored after the `add_arc` calls -/
 theorem arcs_chain (g1 g2 g3 g4 : Graph) (nm : String) (high : ℚ) (N u : ℕ) (hinv1 : C15.Inv g1)
     (hlen : g1.nodes.length = N + 1) (hu1 : 1 ≤ u) (hu : u < N) (iN : g1.indexOf? nm = some N)
-    (hhiN : g1.hi N = none) (hloN : g1.lo N = 0) (hhi0 : g1.hi 0 = none) (hhiu : leE 0 (g1.hi u) = true)
+    (hhiN : g1.hi N = none) (hloN : g1.lo N = g1.lo 0) (hhi0 : g1.hi 0 = none)
+    (hhiu : leE (g1.lo 0) (g1.hi u) = true)
     (e2 : g2 = gAddArc g1 (nameOf g1 0) nm 0 high) (e3 : g3 = gAddArc g2 nm (nameOf g2 u) 0 high)
     (e4 : g4 = if g3.hasArc u 0 then g3 else gAddArc g3 (nameOf g3 u) (nameOf g3 0) 0 0) :
     ∃ a1 a2 a3, g4.arc? 0 N = some a1 ∧ a1.time = 0 ∧ g4.arc? N u = some a2 ∧ a2.time = 0 ∧
@@ -425,9 +426,9 @@ theorem follow_step {g : Graph} {cap : ℚ} {cur j : ℕ} {rest : List ℕ} {tim
 /-- the route depot → dummy → customer → depot is a VRPTW route once the three arcs are there -/
 theorem dummy_valid (G : Graph) (cap init : ℚ) (N u : ℕ) (L : ℚ) (a1 a2 a3 : Arc) (hu1 : 1 ≤ u) (hu : u < N)
     (h1 : G.arc? 0 N = some a1) (ht1 : a1.time = 0) (h2 : G.arc? N u = some a2) (ht2 : a2.time = 0)
-    (h3 : G.arc? u 0 = some a3) (hloN : G.lo N = 0) (hhiN : G.hi N = none) (hdN : G.demand N = -L)
-    (hwu : leE (G.lo u) (G.hi u) = true) (h0u : leE 0 (G.hi u) = true) (hhi0 : G.hi 0 = none)
-    (hd0 : G.demand 0 = 0) (hlo0 : G.lo 0 ≤ 0) (b1 : 0 ≤ init + L) (b2 : init + L ≤ cap) (b3 : 0 ≤ init + L - G.demand u)
+    (h3 : G.arc? u 0 = some a3) (hloN : G.lo N = G.lo 0) (hhiN : G.hi N = none) (hdN : G.demand N = -L)
+    (hwu : leE (G.lo u) (G.hi u) = true) (h0u : leE (G.lo 0) (G.hi u) = true) (hhi0 : G.hi 0 = none)
+    (hd0 : G.demand 0 = 0) (b1 : 0 ≤ init + L) (b2 : init + L ≤ cap) (b3 : 0 ≤ init + L - G.demand u)
     (b4 : init + L - G.demand u ≤ cap) : C06.ValidRoute G cap init [0, N, u, 0] := by
   refine ⟨by simp, rfl, rfl, ?_, ?_⟩
   · have : [0, N, u, 0].dropLast = [0, N, u] := rfl
@@ -436,9 +437,9 @@ theorem dummy_valid (G : Graph) (cap init : ℚ) (N u : ℕ) (L : ℚ) (a1 a2 a3
       not_false_eq_true]
     omega
   · show (C06.follow G cap 0 [N, u, 0] (G.lo 0) init 0).isSome = true
-    have e1 : maxR (G.lo 0 + a1.time) (G.lo N) = 0 := by rw [ht1, hloN]; simp [maxR, hlo0]
+    have e1 : maxR (G.lo 0 + a1.time) (G.lo N) = G.lo 0 := by rw [ht1, hloN]; simp [maxR]
     rw [follow_step h1 (by rw [hhiN]; rfl) (by rw [hdN]; linarith) (by rw [hdN]; linarith), e1]
-    have e2 : leE (maxR (0 + a2.time) (G.lo u)) (G.hi u) = true := by
+    have e2 : leE (maxR (G.lo 0 + a2.time) (G.lo u)) (G.hi u) = true := by
       rw [ht2]
       unfold maxR
       split_ifs
@@ -458,17 +459,19 @@ theorem dummyG4_valid (cap init high : ℚ) (g : Graph) (u : ℕ) (hg : C15.Inv 
     arcs_chain (dummyG1 cap init g u) _ _ (dummyG4 cap init high g u) (dummyName g u) high g.nodes.length u
       (dummyG1_inv cap init g u hg) (by rw [h1n]; simp) hu1 hu
       (Graph.indexOf?_append_new h1n (dummyName_fresh g u)) (Graph.hi_append_new h1n)
-      (Graph.lo_append_new h1n) (by rw [Graph.hi_append_old h1n (by omega)]; exact hpre.depotHi)
-      (by rw [Graph.hi_append_old h1n hu]; exact hpre.custHi u hu1 hu) rfl rfl rfl
+      (by rw [Graph.lo_append_new h1n, Graph.lo_append_old h1n (by omega)]; rfl)
+      (by rw [Graph.hi_append_old h1n (by omega)]; exact hpre.depotHi)
+      (by rw [Graph.hi_append_old h1n hu, Graph.lo_append_old h1n (by omega)]; exact hpre.custHi u hu1 hu)
+      rfl rfl rfl
   obtain ⟨d1, d2⟩ := hpre.custDemand u hu1 hu
   obtain ⟨b1, b2, b3, b4, _, _⟩ := dummyLoad_bounds cap init (g.demand u) hpre.init0 hpre.initc d1 d2
   refine dummy_valid _ cap init _ u (dummyLoad cap init (g.demand u)) a1 a2 a3 hu1 hu x1 x2 x3 x4 x5
-    (Graph.lo_append_new h4n) (Graph.hi_append_new h4n) (Graph.demand_append_new h4n) ?_ ?_ ?_ ?_ ?_ b1 b2 ?_ ?_
+    (by rw [Graph.lo_append_new h4n, Graph.lo_append_old h4n (by omega)]; rfl)
+    (Graph.hi_append_new h4n) (Graph.demand_append_new h4n) ?_ ?_ ?_ ?_ b1 b2 ?_ ?_
   · rw [Graph.lo_append_old h4n hu, Graph.hi_append_old h4n hu]; exact inv_window g hg u hu
-  · rw [Graph.hi_append_old h4n hu]; exact hpre.custHi u hu1 hu
+  · rw [Graph.hi_append_old h4n hu, Graph.lo_append_old h4n (by omega)]; exact hpre.custHi u hu1 hu
   · rw [Graph.hi_append_old h4n (by omega)]; exact hpre.depotHi
   · rw [Graph.demand_append_old h4n (by omega)]; exact hpre.depotDemand
-  · rw [Graph.lo_append_old h4n (by omega)]; exact hpre.depotLo
   · rw [Graph.demand_append_old h4n hu]; exact b3
   · rw [Graph.demand_append_old h4n hu]; exact b4
 
@@ -480,9 +483,8 @@ theorem pathPre_dummy (cap init high : ℚ) (g : Graph) (u : ℕ) (hpre : PathPr
   obtain ⟨d1, d2⟩ := hpre.custDemand u hu1 hu
   obtain ⟨_, _, _, _, b5, b6⟩ := dummyLoad_bounds cap init (g.demand u) hpre.init0 hpre.initc d1 d2
   refine ⟨by rw [dummyG4_cap]; exact hpre.hcap, by rw [dummyG4_init]; exact hpre.hinit, hpre.init0, hpre.initc,
-    by rw [dummyG4_length]; omega, ?_, ?_, ?_, ?_, ?_⟩
+    by rw [dummyG4_length]; omega, ?_, ?_, ?_, ?_⟩
   · rw [Graph.demand_append_old h4n (by omega)]; exact hpre.depotDemand
-  · rw [Graph.lo_append_old h4n (by omega)]; exact hpre.depotLo
   · rw [Graph.hi_append_old h4n (by omega)]; exact hpre.depotHi
   · intro v hv1 hv
     rw [dummyG4_length] at hv
@@ -493,7 +495,8 @@ theorem pathPre_dummy (cap init high : ℚ) (g : Graph) (u : ℕ) (hpre : PathPr
     rw [dummyG4_length] at hv
     by_cases hvN : v = g.nodes.length
     · rw [hvN, Graph.hi_append_new h4n]; rfl
-    · rw [Graph.hi_append_old h4n (by omega)]; exact hpre.custHi v hv1 (by omega)
+    · rw [Graph.hi_append_old h4n (by omega), Graph.lo_append_old h4n (by omega)]
+      exact hpre.custHi v hv1 (by omega)
 
 /-- under the preconditions a dummy step returns normally -/
 theorem dummyBody_total (cap init high : ℚ) (Q : PathInst) (routes : List (List ℕ)) (u : ℕ)
@@ -630,7 +633,6 @@ theorem nv_pP_pre : PathPre nv_pP.g 3 1 where
   initc := by norm_num
   nonempty := by decide +kernel
   depotDemand := by decide +kernel
-  depotLo := by decide +kernel
   depotHi := by decide +kernel
   custDemand := fun u h1 h2 => by
     have h3 : nv_pP.g.nodes.length = 3 := by decide +kernel
@@ -643,5 +645,167 @@ theorem nv_pP_pre : PathPre nv_pP.g 3 1 where
 
 example : ∃ Q sol, nv_pP.makeFeasible 7 (fun c l => l.getLastD c) = .ok (Q, sol) :=
   path_makeFeasible_total nv_pP 7 _ 3 1 nv_pP_inv (C06.poolInv_init _) nv_pP_pre
+
+/-- a depot that opens LATE (window `[5, ∞)`, so the dropped hypothesis `g.lo 0 ≤ 0` fails): customer `a`
+    (demand 2, window `[6, 9]`, arcs `d → a`, `a → d`) and customer `b` (demand 3 > initial load 2, no arcs, so
+    no regular vehicle serves it; window `[1, 5]`, which ends exactly when the depot opens: the boundary case of
+    `custHi`); capacity 3 -/
+def nv_pP5 : PathInst :=
+  { g := { nodes := [⟨"d", 0, 5, none⟩, ⟨"a", 2, 6, some 9⟩, ⟨"b", 3, 1, some 5⟩]
+           arcs := [((0,1), ⟨"d","a",1,1⟩), ((1,0), ⟨"a","d",1,1⟩)]
+           cap := some 3
+           init := some 2 } }
+
+theorem nv_pP5_inv : C15.Inv nv_pP5.g := C15.nv_inv_of_invB _ (by decide +kernel)
+
+/-- `PathPre` with a depot window start different from 0 -/
+theorem nv_pP5_pre : PathPre nv_pP5.g 3 2 where
+  hcap := rfl
+  hinit := rfl
+  init0 := by norm_num
+  initc := by norm_num
+  nonempty := by decide +kernel
+  depotDemand := by decide +kernel
+  depotHi := by decide +kernel
+  custDemand := fun u h1 h2 => by
+    have h3 : nv_pP5.g.nodes.length = 3 := by decide +kernel
+    have : u = 1 ∨ u = 2 := by omega
+    rcases this with rfl | rfl <;> decide +kernel
+  custHi := fun u h1 h2 => by
+    have h3 : nv_pP5.g.nodes.length = 3 := by decide +kernel
+    have : u = 1 ∨ u = 2 := by omega
+    rcases this with rfl | rfl <;> decide +kernel
+
+example : nv_pP5.g.lo 0 = 5 ∧ ¬ nv_pP5.g.lo 0 ≤ 0 := by decide +kernel
+
+example : ∃ Q sol, nv_pP5.makeFeasible 100 nv_pick = .ok (Q, sol) :=
+  path_makeFeasible_total nv_pP5 100 _ 3 2 nv_pP5_inv (C06.poolInv_init _) nv_pP5_pre
+
+/-- what the heuristic does on it: `a` is served by the regular route `d a d`, `b` through a dummy node whose
+    window opens with the depot (at 5) -/
+example : (nv_val (nv_pP5.makeFeasible 100 nv_pick) (nv_pP5, [])).1.routes = [[0, 1, 0], [0, 3, 2, 0]] ∧
+    (nv_val (nv_pP5.makeFeasible 100 nv_pick) (nv_pP5, [])).1.g.nodes.getLast? = some ⟨"mf_Dum_2", -1, 5, none⟩ ∧
+    (nv_val (nv_pP5.makeFeasible 100 nv_pick) (nv_pP5, [])).2 = [1, 1] := by decide +kernel
+
+/-! ## regression: the dummy node's window has to open with the depot, not at time 0
+
+The pinned code created the dummy node with the default window `(0, inf)`.  On a time axis that extends below
+zero the route depot → dummy → customer → depot then waits at the dummy node until `t = 0` and misses every
+customer whose window ends before 0 (already the arc dummy → customer is refused by `add_arc`), so the pinned
+heuristic failed its own `assert feas`. -/
+
+/-- `dummyBody` with the start of the dummy node's window as a parameter (a function of the current graph) -/
+def dummyBodyW (w : Graph → ℚ) (cap init high : ℚ) (Q : PathInst) (routes : List (List ℕ)) (u : ℕ) :
+    Except Err (PathInst × List (List ℕ)) :=
+  let nm := dummyName Q.g u
+  match addNodeStep Q.g nm (-dummyLoad cap init (Q.g.demand u)) (w Q.g) none with
+  | (_, .error e) => .error e
+  | (g1, .ok _) =>
+  let k := g1.nodes.length - 1
+  let g2 := gAddArc g1 (nameOf g1 0) nm 0 high
+  let g3 := gAddArc g2 nm (nameOf g2 u) 0 high
+  let g4 := if g3.hasArc u 0 then g3 else gAddArc g3 (nameOf g3 u) (nameOf g3 0) 0 0
+  let r := [0, k, u, 0]
+  let a := ({ Q with g := g4 } : PathInst).addRoute (r.map Stop.idx)
+  match a.2 with
+  | .ok (true, _) => .ok (a.1, routes ++ [r])
+  | .ok (false, _) => .error .assert
+  | .error e => .error e
+
+/-- the heuristic with that parameter -/
+def makeFeasibleW (w : Graph → ℚ) (P : PathInst) (high : ℚ) (pick : ℕ → List ℕ → ℕ) :
+    Except Err (PathInst × List ℚ) :=
+  match P.g.cap, P.g.init with
+  | some cap, some init =>
+    match ((P.addRoutesBetter pick 0).2.1.filter (· ≠ 0)).foldl
+        (fun (acc : Except Err (PathInst × List (List ℕ))) u => match acc with
+          | .error e => .error e
+          | .ok (Q, routes) => dummyBodyW w cap init high Q routes u)
+        (.ok ((P.addRoutesBetter pick 0).1, (P.addRoutesBetter pick 0).2.2.1)) with
+    | .error e => .error e
+    | .ok (Q, routes) => .ok (Q, solOf Q routes)
+  | _, _ => .error .type
+
+/-- the PINNED heuristic: the dummy node gets the default window `(0, inf)` -/
+def _root_.Vrp.PathInst.makeFeasiblePinned (P : PathInst) (high : ℚ) (pick : ℕ → List ℕ → ℕ) :
+    Except Err (PathInst × List ℚ) :=
+  makeFeasibleW (fun _ => 0) P high pick
+
+/-- the parameterised copy IS the model when the window opens with the depot -/
+theorem makeFeasibleW_depot (P : PathInst) (high : ℚ) (pick : ℕ → List ℕ → ℕ) :
+    makeFeasibleW (fun g => g.lo 0) P high pick = P.makeFeasible high pick := by
+  cases hc : P.g.cap with
+  | none =>
+    rw [makeFeasible_unset P high pick (Or.inl hc)]
+    unfold makeFeasibleW
+    simp only [hc]
+  | some cap =>
+    cases hi : P.g.init with
+    | none =>
+      rw [makeFeasible_unset P high pick (Or.inr hi)]
+      unfold makeFeasibleW
+      simp only [hc, hi]
+    | some init =>
+      rw [makeFeasible_eq P high pick cap init hc hi]
+      unfold makeFeasibleW
+      simp only [hc, hi]
+      rfl
+
+/-- the error a call raised, if any (equality of `Except` values with an instance inside is not decidable) -/
+def errOf {α : Type} (r : Except Err α) : Option Err := match r with | .error e => some e | .ok _ => none
+
+theorem eq_error_of_errOf {α : Type} {r : Except Err α} {e : Err} (h : errOf r = some e) : r = .error e := by
+  cases r with
+  | error e' => simp only [errOf, Option.some.injEq] at h; rw [h]
+  | ok a => cases h
+
+/-- negative time axis: depot `d` with window `[-10, ∞)`, one customer `a` (demand 1) with window `[-8, -2]`,
+    capacity 10, initial loading 0, no arcs; empty pool -/
+def negP : PathInst :=
+  { g := { nodes := [⟨"d", 0, -10, none⟩, ⟨"a", 1, -8, some (-2)⟩]
+           arcs := []
+           cap := some 10
+           init := some 0 } }
+
+theorem negP_inv : C15.Inv negP.g := C15.nv_inv_of_invB _ (by decide +kernel)
+
+/-- the instance satisfies the (new) documented preconditions: `-10 ≤ -2` -/
+theorem negP_pre : PathPre negP.g 10 0 where
+  hcap := rfl
+  hinit := rfl
+  init0 := by norm_num
+  initc := by norm_num
+  nonempty := by decide +kernel
+  depotDemand := by decide +kernel
+  depotHi := by decide +kernel
+  custDemand := fun u h1 h2 => by
+    have h3 : negP.g.nodes.length = 2 := by decide +kernel
+    have : u = 1 := by omega
+    subst this; decide +kernel
+  custHi := fun u h1 h2 => by
+    have h3 : negP.g.nodes.length = 2 := by decide +kernel
+    have : u = 1 := by omega
+    subst this; decide +kernel
+
+/-- **regression**: on a consistent instance (`C15.Inv`, `C06.PoolInv`, `PathPre`) with a negative time axis
+    the PINNED heuristic (dummy window `(0, inf)`) fails its `assert feas`, while the repaired model returns
+    normally: one dummy node (window `[-10, ∞)`, demand `-1`), the route depot → dummy → `a` → depot, solution `[1]` -/
+theorem path_makeFeasible_pinned_dummy_window_fails :
+    C15.Inv negP.g ∧ C06.PoolInv negP ∧ PathPre negP.g 10 0 ∧
+    negP.makeFeasiblePinned 100 nv_pick = .error .assert ∧
+    ∃ Q sol, negP.makeFeasible 100 nv_pick = .ok (Q, sol) ∧
+      Q.g.nodes = negP.g.nodes ++ [⟨"mf_Dum_1", -1, -10, none⟩] ∧ Q.g.nodes.length = 3 ∧
+      Q.routes = [[0, 2, 1, 0]] ∧ Q.costs = [200] ∧ sol = [1] := by
+  refine ⟨negP_inv, C06.poolInv_init _, negP_pre, eq_error_of_errOf (by decide +kernel), ?_⟩
+  refine ⟨(nv_val (negP.makeFeasible 100 nv_pick) (negP, [])).1,
+    (nv_val (negP.makeFeasible 100 nv_pick) (negP, [])).2, nv_val_eq _ _ (by decide +kernel), ?_⟩
+  decide +kernel
+
+/-- the totality theorem applies to the instance (its conclusion, for any sampler) -/
+example (pick : ℕ → List ℕ → ℕ) : ∃ Q sol, negP.makeFeasible 100 pick = .ok (Q, sol) :=
+  path_makeFeasible_total negP 100 pick 10 0 negP_inv (C06.poolInv_init _) negP_pre
+
+/-- the old precondition `leE 0 (g.hi u)` fails on it (the window of `a` ends before 0) -/
+example : leE 0 (negP.g.hi 1) = false ∧ negP.g.lo 0 = -10 := by decide +kernel
 
 end Vrp.C09
